@@ -3984,6 +3984,10 @@ class State:
             0,
         )
         board_index = self.board_dealing_counts.index(self.board_dealing_count)
+
+        if not self.street.board_dealing_count:
+            index = len(tuple(self.get_board_cards(board_index)))
+
         self.board_dealing_counts[board_index] -= len(cards)
 
         for card in cards:
